@@ -27,8 +27,9 @@ class LEWorld(NetWorld):
     params: strategy, n, views ('full' | 'late-<x>': node x is registered at the other nodes later through the
             public add_member(), one 'join' move per node), max_timers, max_moves, rand ('asc' | 'desc' | 'eq':
             the ballots RandomizedStrategy draws through random.randint, by node order)
-    A node *reports* leader L for term T when it claims leadership itself (is_leader, current_term) and when it
-    adopts a leader while handling an ElectionVictory / LeaderHeartbeat (current_leader, current_term).
+    A node *reports* leader L for term T when it claims leadership itself (is_leader, current_term), when it
+    adopts a leader while handling an ElectionVictory / LeaderHeartbeat, and when its current_leader switches to
+    a new name while it handles an event (current_leader, current_term at the end of that handler).
     """
 
     FROZEN_CLOCK = False
@@ -89,6 +90,7 @@ class LEWorld(NetWorld):
 
     def apply(self, lab):
         self.moves += 1
+        before = {nd.name: nd.current_leader for nd in self.nodes}
         saved = _random.randint
         _random.randint = self.randint
         try:
@@ -100,6 +102,10 @@ class LEWorld(NetWorld):
             nd = self.by_name[dst]
             if nd.current_leader is not None:
                 self.report(nd.current_term, nd.current_leader, nd.name, "adopted")
+        for nd in self.nodes:
+            # a node that switches to a new leader while handling this event reports it for its current term
+            if nd.current_leader is not None and nd.current_leader != before[nd.name]:
+                self.report(nd.current_term, nd.current_leader, nd.name, "switched to")
         for nd in self.nodes:
             if nd.is_leader:
                 self.report(nd.current_term, nd.name, nd.name, "claims leadership")
